@@ -17,6 +17,7 @@ RULE = ('statement templates with 1-6 placeholders over positions {select list, 
         'IN list, BETWEEN, sub-selects on either side of a join, INSERT values, INSERT..SELECT, UPDATE SET and WHERE, DELETE, GROUP/HAVING/ORDER, '
         'UNION branches, CTE}, random composition; call histories prepare->execute, prepare->info->execute, execute with n-1 / n+1 values, '
         'prepare twice, second execute; non-trivial = >= 2 placeholders; distinct by (statement, history)')
+RULE += "; also: bind values of mixed types (digit strings, floats, 0, '', negative), literal first VALUES rows, rejection at the call, execute - prepare another - read"
 ASSUMPTIONS = ['textual order = order of the `?` characters in the statement text',
                'column-discovery steps of prepare_steps are answered by a fake executor with a fixed column list']
 BUDGET = {'quick': (8, 240), 'thorough': (16, 1800)}
